@@ -4,12 +4,12 @@ usage: drive_pseudoread.py <out.ndjson> <tier> <seed> [--replay <case.json>]
             records are written to a BAM file and observed by reading that file back with pysam;
   (b) CLI:  bamtagmultiome.py <bam> -method chic --multiprocess --consensus [-ref fa] [--no_source_reads], output BAM read back.
 Only drives and records; TLC (Trace_PseudoRead) judges."""
-import contextlib
-import io
 import json
 import os
 import random
 import re
+import signal
+import subprocess
 import sys
 
 import pysam
@@ -18,6 +18,7 @@ import molgen
 
 MD_RE = re.compile(r'(\d+)|(\^[A-Za-z]+)|([A-Za-z])')
 CIGAR_OPS = 'MIDNSHP=XB'
+CLI_TIMEOUT = 60
 
 
 def md_tokens(md):
@@ -202,8 +203,6 @@ def run_api(env, emit, mols_maxn, tid0, tag):
 
 
 def run_cli(env, emit, mols, no_source, with_ref, tid0, tag):
-    import singlecellmultiomics.universalBamTagger.bamtagmultiome as tm
-    tm.sleep = lambda s: None       # harness-side patch that only removes waiting
     inp = os.path.join(os.getcwd(), 'c15_cli_%s_%d.bam' % (tag, os.getpid()))
     outp = os.path.join(os.getcwd(), 'c15_cli_%s_%d.out.bam' % (tag, os.getpid()))
     reads, names = [], set()
@@ -222,13 +221,25 @@ def run_cli(env, emit, mols, no_source, with_ref, tid0, tag):
         argv += ['-ref', env.fa]
     if no_source:
         argv.append('--no_source_reads')
+    # the command line runs in its own process group under a timeout: on a worker exception the pool-based tagger can wait
+    # forever, which is recorded as an observation ("raised": "Hang") instead of hanging the driver
+    code = ('import sys\nimport singlecellmultiomics.universalBamTagger.bamtagmultiome as tm\n'
+            'tm.sleep = lambda s: None\ntm.run_multiome_tagging_cmd(sys.argv[1:])\n')
     raised = None
-    buf = io.StringIO()
+    p = subprocess.Popen([sys.executable, '-c', code] + argv, stdout=subprocess.DEVNULL, stderr=subprocess.PIPE,
+                         start_new_session=True, text=True, errors='replace')
     try:
-        with contextlib.redirect_stdout(buf), contextlib.redirect_stderr(buf):
-            tm.run_multiome_tagging_cmd(argv)
-    except BaseException as ex:     # SystemExit included: the command line failed
-        raised = type(ex).__name__
+        _, err = p.communicate(timeout=CLI_TIMEOUT)
+        if p.returncode != 0:
+            m = re.findall(r'^(\w+(?:Error|Exception))\b', err or '', re.M)
+            raised = m[-1] if m else 'ExitCode%d' % p.returncode
+    except subprocess.TimeoutExpired:
+        try:
+            os.killpg(p.pid, signal.SIGKILL)
+        except ProcessLookupError:
+            pass
+        p.communicate()
+        raised = 'Hang'
     cons = []
     if raised is None and os.path.exists(outp):
         with pysam.AlignmentFile(outp, check_sq=False) as f:
@@ -260,7 +271,7 @@ def run_cli(env, emit, mols, no_source, with_ref, tid0, tag):
         if k not in used:
             emit({'ev': 'orphan', 'tid': tid, 'via': via, 'record': c})
             tid += 1
-    return tid
+    return tid, raised == 'Hang'
 
 
 def main():
@@ -282,7 +293,7 @@ def main():
                     run_cli(env, emit, [mol], e['via'] == 'cli_nosrc', e.get('with_ref', True), 1, 'replay')
                 return
             tid = 1
-            n_api = 300 if tier == 'quick' else 12000
+            n_api = 300 if tier == "quick" else 8000
             batch = []
             for k in range(n_api):
                 mol = gen_molecule(rng, env.ref, rng.randint(500, 100000), rng.choice(['chr1', 'chr2']))
@@ -297,7 +308,9 @@ def main():
                     mols.append(gen_molecule(rng, env.ref, site[chrom], chrom, same_start=True, max_frags=4))
                 for i, m in enumerate(mols):   # distinct UMIs: molecules are told apart by position anyway
                     m['umi'] = 'ACGT'[i % 4] + m['umi'][1:]
-                tid = run_cli(env, emit, mols, no_source=(k % 2 == 1), with_ref=True, tid0=tid, tag='c%d' % k)
+                tid, hung = run_cli(env, emit, mols, no_source=(k % 2 == 1), with_ref=True, tid0=tid, tag='c%d' % k)
+                if hung:        # every further run would only wait for the timeout again
+                    break
     finally:
         env.cleanup()
 
